@@ -104,6 +104,17 @@ var statedCases = []statedCase{
 	{id: "undefined-paste-in-unused-macro", prop: "C07", kind: "reject",
 		what: "a PASTE of an undefined macro inside a macro that is never pasted",
 		a:    one("JSIGHT 0.3\nMACRO @a\n(\n  PASTE @nope\n)\nGET /x\n  200 any\n")},
+	{id: "regex-example-generator-panic", prop: "C01", kind: "reject",
+		what: "a regex type whose example cannot be generated (a negated class over all of ASCII) ends in a diagnostic, not a panic",
+		a:    one("JSIGHT 0.3\nTYPE @r regex\n/[^\\x00-\\x7F]/\nGET /a\n  200 any\n")},
+	{id: "unused-regex-type-breaks-other-schemas", prop: "C20", kind: "same",
+		what: "a document with and without an unused regex TYPE whose generated example holds a control character",
+		a:    one("JSIGHT 0.3\nTYPE @a\n{\"x\": 1}\nTYPE @ascii regex\n/^[\\x00-\\x7F]+$/\nGET /a\n  200 @a\n"),
+		b:    one("JSIGHT 0.3\nTYPE @a\n{\"x\": 1}\nGET /a\n  200 @a\n")},
+	{id: "deleting-method-between-two-paths", prop: "C20", kind: "same",
+		what: "a URL with two Path directives and a method with its own Path between them vs the same URL without that method: same verdict",
+		a:    one("JSIGHT 0.3\nURL /a/{x}/{y}/{z}\n(\n  Path\n  {\"x\": 1}\n  GET\n  (\n    Path\n    {\"y\": 2}\n    200 any\n  )\n  Path\n  {\"z\": 3}\n  POST\n    200 any\n)\n"),
+		b:    one("JSIGHT 0.3\nURL /a/{x}/{y}/{z}\n(\n  Path\n  {\"x\": 1}\n  Path\n  {\"z\": 3}\n  POST\n    200 any\n)\n")},
 	{id: "include-inside-parentheses", prop: "C08", kind: "same",
 		what: "the children of a parenthesised URL written in place vs moved into an included file",
 		a:    map[string]string{"root.jst": "JSIGHT 0.3\nURL /a\n(\n  INCLUDE inc.jst\n)\n", "inc.jst": "  GET\n    200 any\n"},
@@ -152,16 +163,20 @@ func runStatedCases(ctx *Ctx) {
 			}
 			ctx.Cov.Count(key, true)
 			ctx.Cov.Hit("stated case " + c.id)
-			if ra.Panic != "" {
-				continue
-			}
 			msg := ""
-			switch c.kind {
-			case "reject":
+			if ra.Panic != "" {
+				if c.prop != "C01" {
+					continue
+				}
+				msg = "panic: " + ra.Panic
+			}
+			switch {
+			case msg != "":
+			case c.kind == "reject":
 				if ra.Accepted() {
 					msg = "the document is accepted"
 				}
-			case "contains":
+			case c.kind == "contains":
 				if ra.Accepted() {
 					for _, nd := range c.needle {
 						if !bytes.Contains(ra.JSON, []byte(nd)) {
@@ -169,7 +184,7 @@ func runStatedCases(ctx *Ctx) {
 						}
 					}
 				}
-			case "same":
+			case c.kind == "same":
 				rb := RunProject(conv(c.b), false)
 				if rb.Panic != "" {
 					continue
